@@ -80,6 +80,24 @@ func (e *Engine) verifyFunc(fn *ssa.Function, ct *Contract, slice map[string]boo
 		if !ct.Trusted {
 			vc.frameObligations(fn, ct, te2, final, retReach)
 		}
+		if ct.PureVerdict != "" {
+			// the verdict is a function of the parameters: justified by the purity scan (effect check, no SMT)
+			reason := e.impure(fn, map[*ssa.Function]bool{})
+			goal := "true"
+			if reason != "" {
+				goal = "false"
+			}
+			vc.oblige("purity", shortFn(fn)+"#purity", pos, "verdict of "+fn.Name()+" depends only on its parameters"+map[bool]string{true: "", false: " — " + reason}[reason == ""], "true", goal, nil)
+			if ei := errResultIndex(fn.Signature); ei >= 0 && ei < len(results) {
+				var rt types.Type
+				if fn.Signature.Recv() != nil {
+					rt = fn.Params[0].Type()
+				}
+				// make the name usable in this function's own clauses
+				vt := vc.verdictTerm(ct, fn.Signature, args, rt)
+				vc.assume(retReach, "(= (= (itag "+results[ei].t+") 0) "+vt+")")
+			}
+		}
 	}
 	if extra != nil {
 		extra(vc, te2, final, results, retReach)
